@@ -150,7 +150,7 @@ func c01Build(spec []string, base uint64, compressible bool) []*gen.Msg {
 }
 
 func c01(run *ev.Run) int {
-	run.SetRule("cases = (compression variant x HTTP version x protocol x codec x kind) x message sequences {lengths 0..17; every word over {zero,small,threshold} up to length 4 (quick: all <=3 + seeded 1/8 of length 4); size ladders}; a case is non-trivial/distinct by (config, sequence shape); also an algorithm with empty output for empty messages, the paired corrupt-then-valid history; history: a third of the jobs close every stream twice; oracle: received == sent elementwise (proto.Equal) in both directions + clean end + un-cloned holder sum")
+	run.SetRule("cases = (compression variant x HTTP version x protocol x codec x kind) x message sequences {lengths 0..17; every word over {zero,small,threshold} up to length 4 (quick: all <=3 + seeded 1/8 of length 4); size ladders}; a case is non-trivial/distinct by (config, sequence shape); also an algorithm with empty output for empty messages, the paired corrupt-then-valid history; history: a third of the jobs close every stream twice; oracle: received == sent elementwise (proto.Equal) in both directions + clean end + un-cloned holder sum; an application codec whose messages are plain structs with Reset() (not protobuf messages), sequences with empty-encoding messages after non-empty ones through the typed streaming APIs, both directions")
 	run.Assume("transport is Go net/http client/server over loopback")
 	stats := &svc.AlgoStats{}
 	variants := c01Variants(stats)
